@@ -309,6 +309,20 @@ def run(ctx, canary=False):
             y = Q @ E.true_marginal(inst, pr).reshape(-1) + np.array([rng.gauss(0, noise) for _ in range(Q.shape[0])])
             inst["meas"].append({"proj": pr, "kind": kind, "noise": noise, "y": [float(v) for v in y]})
         jobs.append((inst, s, ITERS, "given")); meta.append(("gapL", inst, None, s, ITERS))
+    # a noisy chain over attributes of 2, 3, 4 and 5 values (total 100): well conditioned, the unmodified solvers meet the optimum
+    # of an independent active-set solver to 1e-12; long accelerated runs make the potentials large, which is where message
+    # arithmetic that is not stabilised slice by slice goes wrong
+    for _ in range(4 if thorough else 1):
+        inst = E.gen_instance(rng, nattr=4, max_meas=0, zeros_prob=0.0, allow_empty=True, sizes=[2, 3, 4, 5])
+        a_ = inst["order"]
+        sc_ = 100.0 / sum(inst["x"])
+        inst["x"] = [v * sc_ for v in inst["x"]]
+        for pr in ([a_[0], a_[1]], [a_[1], a_[2]], [a_[2], a_[3]]):
+            Q = E.qmat("identity", math.prod(inst["sz"][x] for x in pr))
+            y = Q @ E.true_marginal(inst, pr).reshape(-1) + np.array([rng.gauss(0, 2.0) for _ in range(Q.shape[0])])
+            inst["meas"].append({"proj": pr, "kind": "identity", "noise": 2.0, "y": [float(v) for v in y]})
+        for s in ("RDA", "IG", "MD"):
+            jobs.append((inst, s, ITERS, "given")); meta.append(("nnls_tight", inst, None, s, ITERS))
     # a second call on the same engine whose answers are EXACTLY those of uniform tables (loss 0 at the start, immediate exit of
     # mirror descent) after a first call with other answers on the same cliques: the optimum is 0 and must be reported
     for s in ("MD", "MD", rng.choice(["RDA", "IG"])):
@@ -355,6 +369,15 @@ def run(ctx, canary=False):
             if res["trace"]:
                 res["trace"]["info"] = {"solver": solver, "iters": iters, "family": inst.get("family")}
                 traces.append(res["trace"])
+        elif kind == "nnls_tight":
+            lopt = nnls_optimum(inst, res["total"])
+            ctx.extra.setdefault("nnls_tight_excess", []).append((L - lopt) / max(1.0, lopt))
+            if L > lopt * (1 + 1e-3) + 1e-6:
+                ctx.violation("%s after %d iterations: loss %r is above the optimum %r found by an independent active-set solver" % (solver, iters, L, lopt),
+                              dict(info, L_star=lopt), {"kind": "above_optimum", "solver": solver})
+            if L < lopt * (1 - 1e-6) - 1e-9:
+                ctx.violation("%s: loss %r is BELOW the minimum %r achievable by any non-negative table" % (solver, L, lopt), dict(info, L_star=lopt),
+                              {"kind": "below_optimum", "solver": solver})
         elif kind == "gapL":
             # an instance dominated by one heavy measurement: compared with an independently computed optimum (active-set NNLS)
             lopt = nnls_optimum(inst, res["total"])
